@@ -3,4 +3,4 @@
 From HyV Require Import Base.Text Reader.Syntax Gen.ReaderTables Reader.Model.
 Require Extraction.
 Require Import ExtrOcamlBasic.
-Extraction "../extract/reader_model.ml" read_many rd read_fuel.
+Extraction "../extract/reader_model.ml" read_many read_many_file rd read_fuel.
